@@ -424,7 +424,10 @@ def main(tier):
         jobs.append(("reflexive/shapes", "silent", files_for(pkg), files_for(copy.deepcopy(pkg), pkg)))
     # unrelated pairs (totality)
     smalls = unrelated_models()
-    for (i, a), (j, b) in itertools.permutations(list(enumerate(smalls)), 2):
+    for (i, a), (j, b) in itertools.product(list(enumerate(smalls)), repeat=2):
+        if i == j:      # every small model against an identical copy of itself: reflexivity on shapes the base models lack
+            jobs.append(("reflexive/small-%s" % getattr(a, "verif_name", i), "silent", files_for(a), files_for(copy.deepcopy(b), a)))
+            continue
         jobs.append(("unrelated/%d-%d" % (i, j), "any", files_for(a), files_for(copy.deepcopy(b), a)))
     with Pool(build.NCPU) as pool:
         results = pool.map(run_pair, jobs, chunksize=4)
@@ -432,6 +435,8 @@ def main(tier):
     for label, cls, r1, r2 in results:
         chk.count()
         fam = label.split("/")[1] if label.startswith("v") else label.split("/")[0]
+        if label.startswith("reflexive/small-"):
+            fam = "reflexive/" + label[len("reflexive/small-"):]
         key_pos = label
         if r1.get("panic") or r1.get("died") is not None or r1.get("hang"):
             chk.outcome("crash")
@@ -502,4 +507,28 @@ def unrelated_models():
     ]
     for d, steps in defs:
         out.append(Package("Evo", defs=d, protocols=[Protocol("P", steps)], dirname="evo"))
+    # models without any protocol / without any definition at all, a protocol of another name (every pair with the models above
+    # removes or adds a protocol), and generic aliases that permute / repeat / drop-and-fix their parameters
+    pair = Record("G", [("a", TP("A")), ("b", TP("B"))], tparams=("A", "B"))
+    out.append(Package("Evo", defs=[], protocols=[], dirname="evo"))
+    out.append(Package("Evo", defs=[Record("A", [("x", P("int32"))])], protocols=[], dirname="evo"))
+    out.append(Package("Evo", defs=[Record("A", [("x", P("int32"))])], protocols=[Protocol("Q", [("s", N("A"))])], dirname="evo"))
+    out.append(Package("Evo", defs=[Record("A", [("x", P("int32"))])], protocols=[Protocol("P", [("s", N("A"))]), Protocol("Q", [("t", Stream(N("A")))])], dirname="evo"))
+    def named(name, pkg):
+        pkg.verif_name = name
+        out.append(pkg)
+    named("generic-alias-permutes-parameters", Package("Evo", defs=[copy.deepcopy(pair), Alias("Rev", N("G", TP("Y"), TP("X")), tparams=("X", "Y"))],
+          protocols=[Protocol("P", [("s", N("Rev", P("string"), P("int32")))])], dirname="evo"))
+    named("generic-union-alias-permutes-parameters", Package("Evo", defs=[Alias("RevU", Union(TP("Y"), TP("X")), tparams=("X", "Y"))],
+          protocols=[Protocol("P", [("s", N("RevU", P("string"), P("int32")))])], dirname="evo"))
+    named("generic-alias-repeats-parameter", Package("Evo", defs=[copy.deepcopy(pair), Alias("Dup", N("G", TP("X"), TP("X")), tparams=("X",))],
+          protocols=[Protocol("P", [("s", N("Dup", P("int32")))])], dirname="evo"))
+    named("generic-alias-fixes-one-parameter", Package("Evo", defs=[copy.deepcopy(pair), Alias("Half", N("G", TP("X"), P("float32")), tparams=("X",))],
+          protocols=[Protocol("P", [("t", N("Half", P("string")))])], dirname="evo"))
+    named("generic-alias-same-order-other-names", Package("Evo", defs=[copy.deepcopy(pair), Alias("Same", N("G", TP("X"), TP("Y")), tparams=("X", "Y"))],
+          protocols=[Protocol("P", [("t", N("Same", P("string"), P("int32")))])], dirname="evo"))
+    named("generic-alias-permutes-parameters-nested", Package("Evo", defs=[copy.deepcopy(pair), Alias("Deep", N("G", N("G", TP("Y"), TP("X")), Vec(TP("Y"))), tparams=("X", "Y"))],
+          protocols=[Protocol("P", [("u", Stream(N("Deep", P("int32"), P("string"))))])], dirname="evo"))
+    named("generic-record-field-permutes-parameters", Package("Evo", defs=[copy.deepcopy(pair), Record("H", [("g", N("G", TP("Y"), TP("X"))), ("v", Vec(TP("X")))], tparams=("X", "Y"))],
+          protocols=[Protocol("P", [("u", N("H", P("int32"), P("string")))])], dirname="evo"))
     return out
